@@ -101,6 +101,31 @@ CLAIMED["C15"] = dict(
     note="pytools' and loopy's name generators are modelled/observed, not verified; the theorem covers the generator, the "
          "order of seeding in generate_loopy/preprocess is checked by the adversarial batch.")
 
+CLAIMED["C14"] = dict(
+    technique="Lean 4 theorem: slice re-synthesis round-trips through CPython's adjustment for all normalised slices + "
+              "exhaustive slice correspondence + execution of generated Python against the reference + emitted-name table",
+    text="Proved (model): for every normalised slice (any axis length/start/stop/non-zero step) the Python slice the target "
+         "emits, adjusted by CPython's rules, is that same normalised slice, hence selects the same elements; _normalize_slice "
+         "only produces slices in that range. Tie: every slice of C02's scope (12544) through the real _map_index_base: emitted "
+         "text vs the Lean model of the re-synthesis, and executed result vs NumPy; seeded programs (static shapes, no sparse/"
+         "loopy calls) generated with the NumPy-like target instantiated with real NumPy, executed, compared with the reference "
+         "evaluator; keyword arguments vs user inputs; bound data identity; unsupported constructs must raise NotImplementedError/"
+         "UnknownIndexLambdaExpr at generation time, never fail or mis-compute at run time; every function name the target can "
+         "emit must exist in the installed NumPy. Partial: NumPy's kernels executed; JAX absent (shared generator + NumPy "
+         "interface only); no Lean model of the whole generator (pygen_sound not proved).",
+    design_ref="§5 C14", note="Dropped casts inside promoted binary operations rely on NumPy promoting identically (C03).")
+CLAIMED["C17"] = dict(
+    technique="Lean 4 theorems: the modelled name generator is a function of its request sequence + hash-seed sweep of the "
+              "real generators in child interpreters (byte-for-byte comparison)",
+    text="Proved (model): the only stateful ingredient of the code generators, the unique-name generator, is a function of "
+         "(known names as a set, counters, request sequence): equal states and requests give equal answers; membership is all "
+         "that is observed of the seeds. Tie: each program (deterministic generator text) is rebuilt in child interpreters with "
+         "PYTHONHASHSEED 0..5 (quick) / 0..11 (thorough) and different allocation histories; canonical kernel dump, OpenCL "
+         "source, Python source, persistent key, bound-argument names compared byte for byte across children and for two "
+         "builds in one process; distributed partition summaries and tag numbering across differently seeded ranks via the "
+         "C09 machinery when present. Partial: CPython hashing/allocation are observed, not modelled.",
+    design_ref="§5 C17", note="str(kernel)/repr(array) are not compared (their printers list sets in hash order).")
+
 NOT_YET = "check not built yet in this revision (see DESIGN.md §10 build order); not claimed"
 
 ALL = [f"C{n:02d}" for n in range(1, 21)]
